@@ -57,6 +57,8 @@ class Gen:
     def src(self, rel):
         if rel not in self.files:
             p = os.path.join(self.repo, rel)
+            if rel.startswith('verif:'):
+                p = os.path.join(VERIF, rel[len('verif:'):])
             try:
                 text = open(p, encoding='utf-8').read()
             except OSError as e:
